@@ -351,6 +351,9 @@ pub fn main(args: &[String]) {
                         match (s.find("(Response::Id (Some ["), s.rfind("]))")) {
                             (Some(a), Some(z)) if s[a..].starts_with("(Response::Id (Some [") => {
                                 let inner = &s[a + 21..z];
+                                if inner.is_empty() {
+                                    return s.to_string(); // an empty map (every field had a NIL value)
+                                }
                                 let mut items: Vec<&str> = inner.split(") (T ").collect();
                                 let n = items.len();
                                 let mut owned: Vec<String> = items
